@@ -130,9 +130,43 @@ def check_no_guard_dropped_in_ctor(ctx, F, guard_adt, new):
         ctx.ok('R5', role, new.defpath, 'no drop of a %s on any of %d paths' % (guard_adt.rsplit('::', 1)[-1], len(paths or [])), key=key)
 
 
+def check_ctor_error_exits_clean(ctx, F, guard_adt, new, coder_root=(1, 'deref')):
+    """A guard constructor that refuses (front-end error, e.g. get_binary() on a coder that does not hold whole words) has
+    no guard to undo its work: on such an exit the coder must be exactly as it was."""
+    if not guard_adt or new is None:
+        return
+    key = 'R1/ctor-error-exit-clean/' + guard_adt
+    role = 'a refusing guard constructor leaves the coder untouched'
+    ev, paths = rules.evaluate(new)
+    n = 0
+    for r in paths or []:
+        if r.end != 'return' or r.ret is None or rules.ret_shape(r.ret)[0] != 'Err':
+            continue
+        if r.ret[0] == 'err_of':
+            continue          # a backend write error is propagated: outside the quantifier (see assumptions)
+        n += 1
+        dirty = [e for e in r.events if (e['kind'] == 'write' and e['path'][:len(coder_root)] == coder_root)
+                 or (e['kind'] == 'call' and e.get('uid') is not None and any(p[:len(coder_root)] == coder_root for p in e['mut_paths']))]
+        # a loop on the way to the exit may have written through the coder: its effect shows as a havocked final store
+        st_fields = set()
+        for path, v in r.store.items():
+            if path[:len(coder_root)] == coder_root and v != ('in', path):
+                st_fields.add(sym.path_str(path))
+        if dirty or st_fields:
+            what = ([_what(e) for e in dirty] + sorted(st_fields))[0] if (dirty or st_fields) else '?'
+            return ctx.bad('R1', role, new.defpath, 'an exit that returns a front-end error is reached after the coder was modified (%s): no guard exists on that path, so nothing undoes it and the words stay in the buffer' % what, key=key, loc=rules.loc(new))
+    if n:
+        ctx.ok('R1', role, new.defpath, '%d refusing exit(s), none preceded by a write through the coder' % n, key=key)
+
+
+def _what(e):
+    return ('write to ' + sym.path_str(e['path'])) if e['kind'] == 'write' else ('call ' + e['callee'].rsplit('::', 1)[-1])
+
+
 def check_coder_guard(ctx, F):
     g, new, drop = anchors.guard_of(F, ANS, 'get_compressed')
     check_no_guard_dropped_in_ctor(ctx, F, g, new)
+    check_ctor_error_exits_clean(ctx, F, g, new)
     key = 'R5/guard-pairing/stream::stack::CoderGuard'
     role = 'guard pops exactly the words it appended'
     if not new or not drop:
